@@ -1,10 +1,15 @@
 import NetVerif.Model.H3Conn
 import NetVerif.Gen.C35
-/-! C35 — HTTP/3 stream framing never leaks bytes across frame boundaries. -/
+/-!
+C35 — HTTP/3 stream framing never leaks bytes across frame boundaries.
+Model: `Model/H3Stream.lean` (stream.go, settings.go) and `Model/H3Conn.lean` (body.go, conn.go,
+control-stream loop of server.go).
+-/
 namespace NetVerif.Proofs.C35
-open NetVerif NetVerif.Model.H3Stream NetVerif.Model.H3Conn
+open NetVerif NetVerif.Model.H3Stream NetVerif.Model.H3Conn NetVerif.Model.Qpack
 
-/-- T-tie: constants, the known-frame list of `discardUnknownFrame`, the reserved settings. -/
+/-! ### T-tie -/
+
 theorem gen_constants_eq :
     Gen.C35.errH3FrameError = cFrameError ∧ Gen.C35.errH3FrameUnexpected = cFrameUnexpected ∧
     Gen.C35.errH3MissingSettings = cMissingSettings ∧ Gen.C35.errH3SettingsError = cSettingsError ∧
@@ -14,5 +19,207 @@ theorem gen_constants_eq :
     Gen.C35.frameTypeData = 0 ∧ Gen.C35.frameTypeHeaders = 1 ∧ Gen.C35.frameTypeCancelPush = 3 ∧
     Gen.C35.frameTypeSettings = 4 ∧ Gen.C35.frameTypeGoaway = 7 ∧
     Gen.C35.streamTypeControl = 0 ∧ Gen.C35.streamTypePush = 1 := by decide
+
+/-- The case list of `discardUnknownFrame` regenerated from stream.go is the model's. -/
+theorem gen_knownFrameTypes_eq (ft : Nat) : knownFrameType ft = Gen.C35.knownFrameTypes.contains ft := by
+  unfold knownFrameType Gen.C35.knownFrameTypes
+  apply Bool.eq_iff_iff.mpr
+  simp
+  omega
+
+/-- The reserved-setting list of `readSettings` regenerated from settings.go is the model's. -/
+theorem gen_reservedSettings_eq (t : Nat) : reservedSetting t = Gen.C35.reservedSettings.contains t := by
+  unfold reservedSetting Gen.C35.reservedSettings
+  apply Bool.eq_iff_iff.mpr
+  simp
+  omega
+
+/-! ### The read limit -/
+
+/-- `recordBytesRead` fails exactly when the read passes the limit; the failure is a connection
+error H3_FRAME_ERROR and kills the stream; success keeps `lim ≥ 0` inside a frame. -/
+theorem recordBytesRead_spec (s : St) (n : Nat) :
+    (s.lim < 0 → recordBytesRead s n = .ok () s) ∧
+    (0 ≤ s.lim → (n : Int) ≤ s.lim → recordBytesRead s n = .ok () { s with lim := s.lim - n }) ∧
+    (0 ≤ s.lim → s.lim < (n : Int) →
+      recordBytesRead s n = .err (.conn cFrameError) { s with lim := s.lim - n, dead := true }) := by
+  unfold recordBytesRead
+  refine ⟨?_, ?_, ?_⟩
+  · intro h; simp [h]
+  · intro h1 h2
+    have a : ¬ s.lim < 0 := by omega
+    have b : ¬ s.lim - (n : Int) < 0 := by omega
+    simp [a, b]
+  · intro h1 h2
+    have a : ¬ s.lim < 0 := by omega
+    have b : s.lim - (n : Int) < 0 := by omega
+    simp [a, b]
+
+theorem endFrame_spec (s : St) :
+    (s.lim = 0 → endFrame s = .ok () { s with lim := -1 }) ∧
+    (s.lim ≠ 0 → endFrame s = .err (.conn cFrameError) s) := by
+  unfold endFrame
+  constructor
+  · intro h; simp [h]
+  · intro h; simp [h]
+
+/-! ### Over-read and truncation are frame errors -/
+
+/-- Reading a byte at the end of the frame (over-read) is a connection error H3_FRAME_ERROR. -/
+theorem readByte_overread (s : St) (h : s.lim = 0) :
+    readByte s = .err (.conn cFrameError) { s with lim := -1, dead := true } := by
+  unfold readByte recordBytesRead
+  simp [h]
+
+/-- The stream ending inside a frame is H3_FRAME_ERROR for `ReadByte`. -/
+theorem readByte_truncated (s : St) (hl : s.lim > 0) (hd : s.dead = false) (he : s.data = []) :
+    readByte s = .err (.plain cFrameError) { s with lim := s.lim - 1 } := by
+  unfold readByte recordBytesRead qsReadByte
+  have a : ¬ s.lim < 0 := by omega
+  have b : ¬ s.lim - ((1 : Nat) : Int) < 0 := by omega
+  have c : ¬ s.lim - 1 < 0 := by omega
+  simp [a, b, hd, he, c]
+
+/-- The stream ending inside a frame is H3_FRAME_ERROR for `Read` (nothing is delivered). -/
+theorem read_truncated (s : St) (k : Nat) (hl : s.lim > 0) (hd : s.dead = false) (he : s.data = []) :
+    ∃ s', NetVerif.Model.H3Stream.read s k = .err (.plain cFrameError) s' ∧ s'.lim = s.lim := by
+  unfold NetVerif.Model.H3Stream.read qsRead recordBytesRead
+  have a : ¬ s.lim < 0 := by omega
+  have c : ¬ s.lim = 0 := by omega
+  simp [hd, he, a, c, hl]
+
+theorem discardLoop_short : ∀ (n : Nat) (s : St), s.dead = false → n > s.data.length →
+    ∃ s', discardLoop n s = .err (.strm cFrameError) s' := by
+  intro n
+  induction n with
+  | zero => intro s _ h; omega
+  | succ n ih =>
+    intro s hd h
+    unfold discardLoop qsReadByte
+    cases hdata : s.data with
+    | nil => simp [hd]
+    | cons b t =>
+      simp only [hd, Bool.false_eq_true, if_false]
+      exact ih _ rfl (by simp [hdata] at h ⊢; omega)
+
+/-- A frame whose payload is cut short by the end of the stream makes `discardFrame` fail with a
+stream error H3_FRAME_ERROR. -/
+theorem discardFrame_truncated (s : St) (hd : s.dead = false) (h : s.lim.toNat > s.data.length) :
+    ∃ s', discardFrame s = .err (.strm cFrameError) s' := by
+  obtain ⟨s', hs⟩ := discardLoop_short s.lim.toNat s hd h
+  exact ⟨s', by unfold discardFrame; rw [hs]; rfl⟩
+
+/-! ### Unknown frames are skipped entirely -/
+
+theorem discardLoop_ok : ∀ (n : Nat) (s : St), s.dead = false → n ≤ s.data.length → 0 < n →
+    discardLoop n s = .ok () { s with data := s.data.drop n, primed := true } := by
+  intro n
+  induction n with
+  | zero => intro s _ _ h; omega
+  | succ n ih =>
+    intro s hd h _
+    unfold discardLoop qsReadByte
+    cases hdata : s.data with
+    | nil => simp [hdata] at h
+    | cons b t =>
+      simp only [hd, Bool.false_eq_true, if_false]
+      cases n with
+      | zero => simp [discardLoop]
+      | succ m =>
+        rw [ih _ rfl (by simp [hdata] at h ⊢; omega) (by omega)]
+        simp
+
+/-- An unknown frame type that is completely present is skipped entirely: exactly its `lim`
+payload bytes are dropped, nothing else is touched, and the stream is back between frames. -/
+theorem unknown_frame_skipped (s : St) (ft : Nat) (hk : knownFrameType ft = false) (hd : s.dead = false)
+    (hl : 0 < s.lim) (hlen : s.lim.toNat ≤ s.data.length) :
+    discardUnknownFrame s ft = .ok () { s with data := s.data.drop s.lim.toNat, primed := true, lim := -1 } := by
+  unfold discardUnknownFrame discardFrame
+  simp only [hk, Bool.false_eq_true, if_false]
+  rw [discardLoop_ok s.lim.toNat s hd hlen (by omega)]
+  rfl
+
+/-- An empty unknown frame is skipped without touching the stream. -/
+theorem unknown_empty_frame_skipped (s : St) (ft : Nat) (hk : knownFrameType ft = false) (hl : s.lim = 0) :
+    discardUnknownFrame s ft = .ok () { s with lim := -1 } := by
+  unfold discardUnknownFrame discardFrame
+  simp [hk, hl, discardLoop, Out.bind]
+
+/-- A known frame type in an unexpected place is a connection error H3_FRAME_UNEXPECTED. -/
+theorem known_frame_unexpected (s : St) (ft : Nat) (hk : knownFrameType ft = true) :
+    discardUnknownFrame s ft = .err (.conn cFrameUnexpected) s := by
+  unfold discardUnknownFrame; simp [hk]
+
+/-! ### Bytes handed to a body come from the current frame window -/
+
+/-- `Read` only ever returns a prefix of the bytes at the head of the stream, at most `k` of them,
+and (inside a frame) at most `lim` of them. -/
+theorem read_window (s s' : St) (k : Nat) (bs : List Nat) (eof : Bool) (h : NetVerif.Model.H3Stream.read s k = .ok (bs, eof) s') :
+    bs = s.data.take bs.length ∧ bs.length ≤ k ∧ (0 ≤ s.lim → (bs.length : Int) ≤ s.lim) := by
+  unfold NetVerif.Model.H3Stream.read qsRead at h
+  split at h
+  · cases h
+  · rename_i bs0 eof0 s1 hq
+    have hbs : bs0 = s.data.take bs0.length ∧ bs0.length ≤ k ∧ s1.lim = s.lim := by
+      repeat' split at hq
+      all_goals simp at hq
+      all_goals (obtain ⟨rfl, _, rfl⟩ := hq; simp)
+      all_goals (try omega)
+    have hrec := recordBytesRead_spec s1 bs0.length
+    by_cases hl : s1.lim < 0
+    · rw [hrec.1 hl] at h
+      simp only at h
+      repeat' split at h
+      all_goals simp at h
+      all_goals (obtain ⟨⟨rfl, _⟩, _⟩ := h)
+      all_goals exact ⟨hbs.1, hbs.2.1, by intro h0; rw [← hbs.2.2] at h0; omega⟩
+    · by_cases hle : (bs0.length : Int) ≤ s1.lim
+      · rw [hrec.2.1 (by omega) hle] at h
+        simp only at h
+        repeat' split at h
+        all_goals simp at h
+        all_goals (obtain ⟨⟨rfl, _⟩, _⟩ := h)
+        all_goals exact ⟨hbs.1, hbs.2.1, by intro _; rw [← hbs.2.2]; exact hle⟩
+      · rw [hrec.2.2 (by omega) (by omega)] at h
+        cases h
+
+/-! ### Panics (candidate finding: the full statement is FALSE today) -/
+
+/-- "For any bytes on a request stream the implementation never panics." -/
+def NoPanicStatement : Prop :=
+  ∀ (H : Huff) (tbl : List (List Nat × List Nat)) (k : Nat) (data : List Nat),
+    (handleRequest H tbl k (St.fresh data)).2 ≠ .panic
+
+def Hid : Huff := { encLen := fun s => s.length, enc := fun s => s, dec := fun s => some s }
+
+/-- Witness: HEADERS frame of declared length 1 whose QPACK prefix integer needs a second byte. -/
+theorem noPanic_witness : (handleRequest Hid [] 4 (St.fresh [1, 1, 255, 0])).2 = .panic := by rfl
+
+theorem noPanic_full_false : ¬ NoPanicStatement := fun h => h Hid [] 4 [1, 1, 255, 0] noPanic_witness
+
+/-- Exactly when `handleStreamError` panics: the stream was killed by a limit overrun
+(`st.stream = nil`) and the error is not a `*connectionError`. -/
+theorem handleStreamError_panic_iff (s : St) (e : Option Err) :
+    handleStreamError s e = .panic ↔ (s.dead = true ∧ ∀ c, e ≠ some (.conn c)) := by
+  unfold handleStreamError
+  cases e with
+  | none => cases hd : s.dead <;> simp [hd]
+  | some e => cases e <;> cases hd : s.dead <;> simp [hd]
+
+/-- Outside that region nothing panics at the connection level (`_partial`: the handlers' own
+totality on live streams is covered by the differential run, not proved). -/
+theorem finish_no_panic_partial (o : Out Unit) (h : ∀ e s, o = .err e s → s.dead = false ∨ ∃ c, e = .conn c)
+    (h2 : ∀ a s, o = .ok a s → s.dead = false) (hp : o ≠ .panic) : finish o ≠ .panic := by
+  unfold finish
+  cases o with
+  | ok a s => simp only; rw [Ne, handleStreamError_panic_iff]; intro hh; have := h2 a s rfl; simp [this] at hh
+  | err e s =>
+    simp only; rw [Ne, handleStreamError_panic_iff]
+    intro hh
+    rcases h e s rfl with hd | ⟨c, rfl⟩
+    · simp [hd] at hh
+    · exact hh.2 c rfl
+  | panic => exact absurd rfl hp
+  | hang => simp
 
 end NetVerif.Proofs.C35
